@@ -244,15 +244,29 @@ func check(prop string, t interface{ Fatalf(string, ...any) }, sc Scenario) {
 	}
 }
 
-func TestC14(t *testing.T) {
-	rapid.Check(t, func(t *rapid.T) {
-		d := rapid.IntRange(1, 6).Draw(t, "depth")
-		check("C14", t, Scenario{Root: "S", Tree: genS(t, d, false), Fail: rapid.IntRange(0, 40).Draw(t, "fail")})
-	})
+func propC14(t *rapid.T) {
+	d := rapid.IntRange(1, 6).Draw(t, "depth")
+	check("C14", t, Scenario{Root: "S", Tree: genS(t, d, false), Fail: rapid.IntRange(0, 40).Draw(t, "fail")})
 }
 
-func TestC15(t *testing.T) {
-	rapid.Check(t, func(t *rapid.T) {
+func TestC14(t *testing.T) { rapid.Check(t, propC14) }
+
+// FuzzC14 / FuzzC15: the same properties driven by Go's coverage-guided fuzzer (thorough tier only).
+func FuzzC14(f *testing.F) {
+	f.Add([]byte{})
+	f.Add([]byte("\x01\x02\x03\x04\x05\x06\x07\x08"))
+	f.Fuzz(rapid.MakeFuzz(propC14))
+}
+func FuzzC15(f *testing.F) {
+	f.Add([]byte{})
+	f.Add([]byte("\x01\x02\x03\x04\x05\x06\x07\x08"))
+	f.Fuzz(rapid.MakeFuzz(propC15))
+}
+
+func TestC15(t *testing.T) { rapid.Check(t, propC15) }
+
+func propC15(t *rapid.T) {
+	{
 		d := rapid.IntRange(2, 6).Draw(t, "depth")
 		sc := Scenario{Fail: rapid.IntRange(0, 40).Draw(t, "fail")}
 		if rapid.IntRange(0, 3).Draw(t, "root") == 0 {
@@ -265,7 +279,7 @@ func TestC15(t *testing.T) {
 			sc.Root, sc.Tree = "P", genP(t, d)
 		}
 		check("C15", t, sc)
-	})
+	}
 }
 
 // ---- exhaustive enumeration of small trees
